@@ -1,6 +1,7 @@
 package main
 
 import (
+	"runtime/pprof"
 	"flag"
 	"fmt"
 	"os"
@@ -25,13 +26,23 @@ func main() {
 		dump := fs.String("dump", "", "dump smt2 into dir")
 		noprune := fs.Bool("noprune", false, "no feasibility pruning")
 		stub := fs.String("stub", "", "from=to[,from=to] contract stubs")
+		symFrom := fs.Int("from", 0, "symbolic window start")
+		symTo := fs.Int("to", 0, "symbolic window end")
+		policy := fs.String("policy", "", "baseline policy")
+		prof := fs.String("cpuprofile", "", "write cpu profile")
 		fs.Parse(os.Args[3:])
+		if *prof != "" {
+			f, _ := os.Create(*prof)
+			pprof.StartCPUProfile(f)
+			defer pprof.StopCPUProfile()
+		}
 		l, err := loadRepo()
 		if err != nil {
 			fmt.Println("INCONCLUSIVE", err)
 			os.Exit(2)
 		}
 		spec := HarnessSpec{Name: os.Args[2], Func: os.Args[2], Pkg: *pkg, Int: *intMode, Unwind: *unwind, Steps: *steps, Symbolic: *symb, TimeoutMs: *to, Solver: *solver, NoPrune: *noprune}
+		spec.SymFrom, spec.SymTo, spec.Policy = *symFrom, *symTo, *policy
 		if *stub != "" {
 			spec.Stubs = map[string]string{}
 			for _, kv := range strings.Split(*stub, ",") {
